@@ -175,6 +175,13 @@ func genVarCall(r *detsim.Rand, fam int) Call {
 		f := varFamilies[fam%len(varFamilies)]
 		c.Rule = f[0] + r.Intn(f[1]-f[0])
 	}
+	if i := c.Rule - dtRuleFrom; i >= 0 && i < dtTriples && r.Chance(3, 5) {
+		// a date-time written with exactly the separators this rule names (alone, the call succeeds); otherwise any value
+		c.Val = dtValFrom + i
+		if r.Chance(1, 4) {
+			c.Val = dtValFrom + r.Intn(dtTriples)
+		}
+	}
 	return c
 }
 
@@ -383,6 +390,16 @@ func GenC11(r *detsim.Rand, tier string) *Plan {
 		per = 560/nc + 8
 	}
 	next := 0
+	// focus (1 run in 3): every client keeps calling into the same one or two types / the same rule family with its own
+	// values, so that several clients are inside the same function at the same time
+	var hot []int
+	hotFam := -1
+	if !big && r.Chance(1, 3) {
+		hot = typePool(r, 1+r.Intn(2))
+		if len(varFamilies) > 0 && r.Chance(1, 3) {
+			hotFam = r.Intn(len(varFamilies))
+		}
+	}
 	for c := 0; c < nc; c++ {
 		types := shared
 		if r.Chance(1, 4) && !big {
@@ -391,6 +408,13 @@ func GenC11(r *detsim.Rand, tier string) *Plan {
 		calls := make([]Call, 0, per)
 		for i := 0; i < per; i++ {
 			cl := genAnyCall(r, types)
+			if hot != nil && r.Chance(3, 4) {
+				if hotFam >= 0 && r.Chance(1, 2) {
+					cl = genVarCall(r, hotFam)
+				} else {
+					cl = genStructCall(r, hot, true)
+				}
+			}
 			if big && cl.IsStruct() {
 				cl.Type = shared[next%len(shared)]
 				next++
